@@ -69,6 +69,8 @@ type Contract struct {
 	Ghosts   []SpecParam
 	Preimages []*PreClause
 	HashFamily string
+	WireLen    []*Clause // wire-length <= expr: byte length of what the function writes to its Encoder
+	CallAsserts map[string][]*Clause // at <call site> assert <expr> ($arg0.. are the actual arguments)
 	HashOf     *SExpr   // digest expression of the family member (default: result)
 	Concrete   []string // callees whose `abstract` marking is ignored in this unit (their bodies are executed)
 	Instance string // generic function: verify the instance whose name contains this text
@@ -122,7 +124,7 @@ var (
 var clauseKeywords = map[string]bool{
 	"prop": true, "mode": true, "requires": true, "ensures": true, "panics-iff": true, "may-panic": true,
 	"invariant": true, "decreases": true, "unroll": true, "modifies": true, "let": true, "trusted": true,
-	"abstract": true, "inline": true, "split": true, "assert": true, "replay": true, "no-panic": true, "ghost": true, "instance": true, "preimage": true, "hash-family": true, "concrete": true,
+	"abstract": true, "inline": true, "split": true, "assert": true, "replay": true, "no-panic": true, "ghost": true, "instance": true, "preimage": true, "hash-family": true, "concrete": true, "wire-length": true, "at": true,
 }
 
 // qualify turns a contract-file function key into the ssa full name.
@@ -335,6 +337,28 @@ func (cs *ContractStore) addClause(c *Contract, kw, rest, where string) error {
 		c.Inline = true
 	case "instance":
 		c.Instance = rest
+	case "wire-length":
+		r2 := strings.TrimSpace(strings.TrimPrefix(strings.TrimSpace(rest), "<="))
+		e, err := ParseSpec(r2)
+		if err != nil {
+			return fmt.Errorf("%s: %v", where, err)
+		}
+		c.WireLen = append(c.WireLen, &Clause{Kind: kw, Label: label, Expr: e, Src: rest, Line: where})
+	case "at":
+		// at call:withDecoder#1 assert <expr>
+		parts := strings.SplitN(rest, " assert ", 2)
+		if len(parts) != 2 {
+			return fmt.Errorf("%s: at <site> assert <expr>", where)
+		}
+		e, err := ParseSpec(strings.TrimSpace(parts[1]))
+		if err != nil {
+			return fmt.Errorf("%s: %v", where, err)
+		}
+		if c.CallAsserts == nil {
+			c.CallAsserts = map[string][]*Clause{}
+		}
+		site := strings.TrimSpace(parts[0])
+		c.CallAsserts[site] = append(c.CallAsserts[site], &Clause{Kind: "assert", Label: label, Expr: e, Src: rest, Line: where})
 	case "concrete":
 		c.Concrete = append(c.Concrete, strings.Fields(strings.ReplaceAll(rest, ",", " "))...)
 	case "hash-family":
